@@ -9,7 +9,10 @@ H = "pyrtcm.rtcmhelpers."
 TRUSTED = []
 ASSUMPTIONS = ["eval(repr(b)) == b for bytes (language property); the repr text is 'RTCMMessage(payload=' + repr(payload) + ')'",
                "the constructed message is a function of (payload, labelmsm) only (C13 frame conditions)"]
-ARGUED = ["parse(serialize(m)).payload == m.payload: serialize.post.canonical_frame + lemma append_own_crc_gives_zero (CRC of the "
+ARGUED = ["(now machine-checked as client lemmas: client.roundtrip_serialize_parse.*, client.stub_serializes_to_same_frame.*; what "
+          "remains argued is only that 'same payload' implies 'same identity and attribute values' - the constructor is a function of "
+          "(payload, labelmsm), C13)",
+          "parse(serialize(m)).payload == m.payload: serialize.post.canonical_frame + lemma append_own_crc_gives_zero (CRC of the "
           "frame is 0, so parse does not reject) + parse.post.payload_is_message_3_to_minus3",
           "serialize(parse(f)) == f for a valid frame f: parse keeps f[3:-3]; serialize rebuilds D3, be16(len) = f[1:3] "
           "(length field of a well-formed frame), payload, and the CRC trailer, which equals f[-3:] by lemma trailer_unique"]
@@ -23,6 +26,11 @@ def units(tier):
               "pyrtcm.rtcmreader.RTCMReader.parse", M + ".__init__"):
         us += func_units(q, tier)
     us.append(lemma_unit("crc.step_lemmas", crc_lemmas.step_lemmas))
+    # the two round trips as lemmas over the contracts (client programs executed with calls by contract)
+    from pyvc import clientrun
+    us.append(clientrun.unit("roundtrip_serialize_parse", clientrun.lemma_roundtrip))
+    us.append(clientrun.unit("stub_serializes_to_same_frame", clientrun.lemma_parse_serialize))
+    us.append(clientrun.unit("crc_split", clientrun.lemma_crc_split))
     return us
 
 
